@@ -16,7 +16,7 @@ from __future__ import annotations
 
 import ast
 
-from ..astutil import U, view, names_in, stmt_index, compare_parts, branch_table, flat_tests, const_strings
+from ..astutil import U, view, names_in, stmt_index, compare_parts, branch_table, flat_tests, const_strings, arg_or_kw
 from ..core import Ctx
 from ..model import dotted
 from ..rules import empty, refine, render
@@ -187,6 +187,47 @@ def check_otsu_total(ctx: Ctx):
                f"`{U(bad[0])[:60] if bad else ''}` raises ValueError('All-NaN slice encountered') for a constant image, where every between-class variance is 0·NaN: locate_droplets(..., threshold='otsu') aborts on a valid field")
 
 
+def check_histogram_total(ctx: Ctx):
+    """numpy.histogram(x, bins=n) with an integer bin count raises ValueError('Too many bins for data range') when the range
+    of x is finite but narrower than n representable steps at the magnitude of x (1000 + 1e-13·noise): a finite field.  Every
+    such call in the analysis code sits in a `try` that handles ValueError (or the data is centred before binning)."""
+    m = ctx.model
+    n = 0
+    for fi in m.all_functions():
+        if fi.module.name != IMG:
+            continue
+        fv = view(m, fi)
+        si = stmt_index(fv)
+        for c in fv.calls():
+            if (fv.callee(c) or U(c.func)) not in ("numpy.histogram", "np.histogram"):
+                continue
+            n += 1
+            bins = arg_or_kw(c, 1, "bins")
+            rng = arg_or_kw(c, 2, "range")
+            x = arg_or_kw(c, 0, "a")
+            handled = False
+            for node_, fld in si.ancestors(c):
+                if isinstance(node_, ast.Try) and fld == "body":
+                    if True:
+                        for h in node_.handlers:
+                            names_ = [U(h.type)] if h.type is not None and not isinstance(h.type, ast.Tuple) else ([U(e) for e in h.type.elts] if h.type is not None else ["BaseException"])
+                            if any(nm in ("ValueError", "Exception", "BaseException") for nm in names_):
+                                handled = True
+            # data centred on one of its own values first: the magnitude that limits the resolution is the range itself
+            centred = False
+            if x is not None:
+                xe = fv.expand(x, c, allow_mutated=True)
+                for b_ in ast.walk(xe):
+                    if isinstance(b_, ast.BinOp) and isinstance(b_.op, ast.Sub) and isinstance(b_.right, ast.Call) and (U(b_.right.func).split(".")[-1] in ("min", "max", "mean", "nanmin", "nanmax", "median")):
+                        centred = True
+            fixed_edges = bins is not None and isinstance(fv.expand(bins, c), (ast.List, ast.Tuple))
+            ctx.decide(handled or centred or fixed_edges or rng is not None, "TOTAL", f"{fi.qualname}:histogram", (fi, c),
+                       "a data range too narrow for the requested bins is handled (ValueError caught / data centred / explicit edges)",
+                       f"`{U(c)[:70]}` raises ValueError('Too many bins for data range') for a finite image whose range is below the float resolution of its offset "
+                       "(e.g. 1000 + 1e-13·noise with threshold='otsu'): locate_droplets aborts on a valid field")
+    return n
+
+
 def check_threshold_usage(ctx: Ctx):
     """The threshold option is `float | "auto" | "extrema" | "mean" | "otsu"`: outside locate_droplets' own dispatch (which
     converts it) it may only be stored and forwarded.  Comparing it with field values or doing arithmetic on it raises
@@ -273,6 +314,7 @@ def check(ctx: Ctx):
                f"the validity test for perturbation modes is `{U(ldv.expand(guards_dim[0].test, guards_dim[0], stop=(ld.params[0], 'modes')))[:80] if guards_dim else '?'}`: it must be decided on the space dimension "
                "phase_field.grid.dim; on symmetric grids (fewer axes than dimensions) another quantity raises the documented error for valid requests or builds droplets of the wrong dimension")
     check_otsu_total(ctx)
+    check_histogram_total(ctx)
     check_threshold_usage(ctx)
     from . import c07
 
@@ -283,7 +325,7 @@ def check(ctx: Ctx):
     ctx.functions |= sub.functions
     ctx.expect("METRIC", 2)
     ctx.expect("WIDTH", 4)
-    ctx.expect("TOTAL", 3)
+    ctx.expect("TOTAL", 4)
     ctx.expect("EMPTY", 9)
     ctx.expect("ARITY", 3)
     ctx.expect("DIV0", 1)
